@@ -219,7 +219,7 @@ class ExactStats:
         self.reassembled_lots = 0
 
 
-def check_exact(model: Model, trace: Sequence[Fraction_], stats: Optional[ExactStats] = None, exact: bool = False) -> List[Dict[str, Any]]:
+def check_exact(model: Model, trace: Sequence[Fraction_], stats: Optional[ExactStats] = None, exact: bool = False, rel: Fraction = REL) -> List[Dict[str, Any]]:
     violations: List[Dict[str, Any]] = []
     sum_proceeds: Dict[int, Fraction] = {}
     sum_amount: Dict[int, Fraction] = {}
@@ -238,7 +238,7 @@ def check_exact(model: Model, trace: Sequence[Fraction_], stats: Optional[ExactS
             sum_lot_amount[f.lot] = sum_lot_amount.get(f.lot, Fraction(0)) + f.amount
         exp_gain = exp_proceeds - exp_cost
         scale = max(abs(exp_proceeds), abs(exp_cost))
-        tolerance = Fraction(0) if exact else REL * scale
+        tolerance = Fraction(0) if exact else rel * scale
         for name, got, exp in (("proceeds", f.proceeds, exp_proceeds), ("cost", f.cost, exp_cost), ("gain", f.gain, exp_gain)):
             err = abs(got - exp)
             if stats is not None and scale > 0:
@@ -257,7 +257,7 @@ def check_exact(model: Model, trace: Sequence[Fraction_], stats: Optional[ExactS
         if sum_amount[row] == event.amount:
             if stats is not None:
                 stats.reassembled_events += 1
-            tolerance = Fraction(0) if exact else REL * abs(event.taxable_fiat)
+            tolerance = Fraction(0) if exact else rel * abs(event.taxable_fiat) * max(1, len(trace))
             if abs(total - event.taxable_fiat) > tolerance:
                 violations.append(_v("exact.event-reassembly", event=row, got=float(total), expected=float(event.taxable_fiat)))
     for row, total in sum_cost.items():
@@ -265,7 +265,7 @@ def check_exact(model: Model, trace: Sequence[Fraction_], stats: Optional[ExactS
         if sum_lot_amount[row] == lot.amount:
             if stats is not None:
                 stats.reassembled_lots += 1
-            tolerance = Fraction(0) if exact else REL * abs(lot.fiat_in_with_fee)
+            tolerance = Fraction(0) if exact else rel * abs(lot.fiat_in_with_fee) * max(1, len(trace))
             if abs(total - lot.fiat_in_with_fee) > tolerance:
                 violations.append(_v("exact.lot-reassembly", lot=row, got=float(total), expected=float(lot.fiat_in_with_fee)))
     return violations
